@@ -207,6 +207,8 @@ func (a *Allocator) Allocate(req *Request) (NodeMask, map[string]NodeMask, error
 		return 0, nil, err
 	}
 
+	a.invalidateOffers()
+
 	return req.zone, a.commitJournal(req), nil
 }
 
@@ -232,7 +234,12 @@ func (a *Allocator) Realloc(id string, affinity NodeMask, types TypeMask) (NodeM
 
 	defer a.validateState("Realloc")
 
-	return a.realloc(req, affinity, types)
+	zone, updates, err := a.realloc(req, affinity, types)
+	if err == nil {
+		a.invalidateOffers()
+	}
+
+	return zone, updates, err
 }
 
 // Release releases the allocation with the given ID.
